@@ -140,6 +140,7 @@ def verify(prop, tier='quick'):
         try:
             from . import symham
             out += symham.verify()
+            out += symham.verify_graph_models()
         except Exception as e:
             out.append(Verdict('local_terms', 'S', 'undecided', f'engine S error: {type(e).__name__}: {e}', 0, 'hamiltonian', 'ensures', 'sympy'))
     if prop == 'C07':
